@@ -328,7 +328,7 @@ func (e *env) run(st Step) (res Result) {
 		tail, _ := hex.DecodeString(st.Tail)
 		extra := 0
 		if os.Getenv("VFRUN_DIRTY") != "" {
-			extra = 96 // a recycled buffer: spare capacity that still holds what was there before
+			extra = 8192 // a recycled buffer: spare capacity that still holds what was there before
 		}
 		back := make([]byte, len(b), len(b)+len(tail)+st.N+extra)
 		copy(back, b)
